@@ -104,6 +104,9 @@ func verifIntrinsic(fr *frame, name string, args []value) value {
 		l, _ := strParts(args[0])
 		r.observed = append(r.observed, fmt.Sprintf("%s=%v", l, conc(args[1])))
 		return nil
+	case "PoolReuse":
+		i.poolReuse = args[0].(bool)
+		return nil
 	case "Native", "Free":
 		return false
 	}
